@@ -141,6 +141,7 @@ def run(ctx):
                 qt = r.choice(QTYPES)
                 case = {'fn': 'modularity_und_sign', 'W': W, 'ci': kci, 'qtype': qt}
                 ci, q = bct.modularity_und_sign(A, np.array(kci), qtype=qt)
+                tie_variants(case)
                 ctx.case(case, nontrivial=True)
                 ctx.count('fn:modularity_und_sign')
                 ctx.check(valid_labels(ci, n) and list(ci) == canon(kci), 'modularity_und_sign:labels',
@@ -154,6 +155,7 @@ def run(ctx):
                 name = 'modularity_' + which
                 case = {'fn': name, 'W': W, 'gamma': str(g), 'kci': kci}
                 ci, q = f(A, gamma=float(g), kci=np.array(kci))
+                tie_variants(case)
                 ctx.case(case, nontrivial=True)
                 ctx.count('fn:%s(kci)' % name)
                 ctx.check(canon(list(ci)) == canon(kci), name + ':given_partition', 'the given partition is not returned', case)
@@ -171,6 +173,7 @@ def run(ctx):
                 except Exception as e:
                     ctx.fail(name + ':raises', 'raised %r' % (e,), case2)
                     continue
+                tie_variants(case2)
                 ctx.case(case2, nontrivial=len(set(ci)) > 1)
                 ctx.count('fn:%s(spectral)' % name)
                 ctx.check(valid_labels(ci, n), name + ':labels', 'labels are not exactly 1..k: %s' % list(ci), case2)
